@@ -716,13 +716,23 @@ pub fn validate_decompression_operation(
     // Check session limits first (current + projected)
     session_tracker.check_session_limits_with_addition(expected_decompressed_size, limits)?;
 
-    // Validate basic file bounds
+    // Validate basic file bounds. The flat ratio limit of `validate_file_bounds` would
+    // reject legitimate, highly compressible data (bzip2 of a zero-filled 64 KiB sector
+    // reaches ~1500:1) before the size- and method-aware limit below is consulted, so
+    // when adaptive limits are enabled that limit is the one applied here as well.
+    let mut bounds_limits = limits.clone();
+    if limits.enable_pattern_detection && limits.enable_adaptive_limits {
+        bounds_limits.max_compression_ratio =
+            AdaptiveCompressionLimits::new(limits.max_compression_ratio, true)
+                .calculate_limit(compressed_size, compression_method)
+                .max(limits.max_compression_ratio);
+    }
     validate_file_bounds(
         0, // offset not relevant for this check
         expected_decompressed_size,
         compressed_size,
         u64::MAX, // archive size not relevant for this check
-        limits,
+        &bounds_limits,
     )?;
 
     // Run pattern-based compression bomb detection
